@@ -40,7 +40,7 @@ SOLVERS = ("z3-new", "cvc5")
 
 
 def solve(smt, solver, timeout=300):
-    cmd = {"z3": ["z3", "-in", "-T:%d" % timeout], "z3-new": ["z3-new", "-in", "-T:%d" % timeout], "cvc5": ["cvc5", "--lang", "smt2", "--incremental", "--tlimit=%d" % (timeout * 1000)]}[solver]
+    cmd = {"z3": ["z3", "-in", "-T:%d" % timeout], "z3-new": ["z3-new", "-in", "-T:%d" % timeout], "cvc5": ["cvc5", "--lang", "smt2", "--incremental", "--produce-models", "--tlimit=%d" % (timeout * 1000)]}[solver]
     rc, out, dt = _run(cmd, inp=smt.encode(), timeout=timeout + 30)
     return out, dt
 
@@ -54,6 +54,8 @@ def parse_answers(out):
         if s in ("sat", "unsat", "unknown"):
             cur = [s, ""]
             res.append(cur)
+        elif s.startswith("(error") and cur is not None and cur[0] == "unsat" and ("model" in s.lower() or "get value" in s.lower()):
+            pass  # (get-value) after an unsat answer: expected, not an inconclusive query
         elif s.startswith("(error") or "TIMEOUT" in s or s.startswith("timeout"):
             res.append(["error", s])
             cur = None
@@ -279,7 +281,143 @@ def job_c17_pll(tier):
     return job
 
 
+# ---- C16: symbol <-> millisecond helpers (moved from Kani to E2: a 32-bit divider per (SF, BW)
+# took CBMC 370 s for ten bandwidths; the integer encoding is decided in milliseconds) ----------
+DUMP_MOD = r"""
+#[cfg(test)]
+mod verif_dump_symbols {
+    use super::*;
+    #[test]
+    fn verif_dump_symbols() {
+        let sfs = [SpreadingFactor::_5, SpreadingFactor::_6, SpreadingFactor::_7, SpreadingFactor::_8, SpreadingFactor::_9, SpreadingFactor::_10, SpreadingFactor::_11, SpreadingFactor::_12];
+        let bws = [Bandwidth::_7KHz, Bandwidth::_10KHz, Bandwidth::_15KHz, Bandwidth::_20KHz, Bandwidth::_31KHz, Bandwidth::_41KHz, Bandwidth::_62KHz, Bandwidth::_125KHz, Bandwidth::_250KHz, Bandwidth::_500KHz];
+        for (i, sf) in sfs.iter().enumerate() {
+            for (j, bw) in bws.iter().enumerate() {
+                let p = BaseBandModulationParams::new(*sf, *bw, CodingRate::_4_5);
+                // symbols_to_ms(1000) = t_sym_us * 1000 / 1000: the (private) symbol time
+                println!("LRV t {} {} {}", i, j, p.symbols_to_ms(1000));
+                for x in [0u32, 1, 7, 999, 8189, 4000] {
+                    println!("LRV stm {} {} {} {}", i, j, x, p.symbols_to_ms(x));
+                }
+                for x in [0u32, 1, 5, 1000, 6000, 65535] {
+                    println!("LRV dis {} {} {} {}", i, j, x, p.delay_in_symbols(x));
+                }
+            }
+        }
+    }
+}
+"""
+SF_NUM = [5, 6, 7, 8, 9, 10, 11, 12]
+BW_HZ = [7810, 10420, 15630, 20830, 31250, 41670, 62500, 125000, 250000, 500000]
+
+
+def job_c16_symbols(tier):
+    def job(logdir):
+        t0 = time.time()
+        entry = dict(id="symbol_conversions_mir2smt", file="lib/engines.py", anchor="lora-modulation/src/lib.rs", build="mir",
+                     bounds="all 80 (SF, BW) pairs (symbol time bound to the value the compiled code uses); symbols_to_ms for every symbols 0..=8189; delay_in_symbols for every delay 0..=65535 ms whose quotient fits u16; %s and %s must agree" % SOLVERS,
+                     assumes=["mir2smt translation validated on every run against the compiled functions on sample inputs",
+                              "arguments outside the stated ranges (products beyond u32, quotients beyond u16) are outside the documented domain of these two helpers"],
+                     encodes=["BaseBandModulationParams::symbols_to_ms", "BaseBandModulationParams::delay_in_symbols"], outside=[])
+        res = dict(entry=entry, verdict="held", queries=0, solver_time_s=0.0, validated=0, replay=None)
+        scratch = lrv.make_scratch("C16-mir")
+        try:
+            text, dt = mir_dump(scratch, "lora-modulation", logdir)
+            mod = mir2smt.Module(text)
+            fdis = [n for n in mod.funcs if n.endswith("::delay_in_symbols")]
+            fstm = [n for n in mod.funcs if n.endswith("::symbols_to_ms")]
+            if len(fdis) != 1 or len(fstm) != 1:
+                raise lrv.Inconclusive("delay_in_symbols / symbols_to_ms not found exactly once in the MIR dump")
+            # native values: symbol times and samples
+            src = os.path.join(scratch, "src")
+            p = os.path.join(src, "lora-modulation/src/lib.rs")
+            open(p, "a").write(DUMP_MOD)
+            rc, out, dtn = _run(["cargo", "test", "--offline", "-p", "lora-modulation", "--lib", "--target-dir", os.path.join(scratch, "target-native"),
+                                 "verif_dump_symbols", "--", "--nocapture"], cwd=src, timeout=900)
+            open(os.path.join(logdir, "symbols_native.log"), "w").write(out)
+            tsym = {}
+            samples = []
+            for m in re.finditer(r"LRV (t|stm|dis) (\d+) (\d+) (\d+)(?: (\d+))?", out):
+                if m.group(1) == "t":
+                    tsym[(int(m.group(2)), int(m.group(3)))] = int(m.group(4))
+                else:
+                    samples.append((m.group(1), int(m.group(2)), int(m.group(3)), int(m.group(4)), int(m.group(5))))
+            if len(tsym) != 80:
+                raise lrv.Inconclusive("native evaluation did not yield 80 symbol times: " + out[-300:])
+            smt = "(set-logic ALL)\n"
+            for (i, j), t in sorted(tsym.items()):
+                # independent cross-check of the symbol time itself (floor(2^SF * 1e6 / BW))
+                if t != (1 << SF_NUM[i]) * 1000000 // BW_HZ[j]:
+                    res["verdict"] = "violated"
+                    entry["reason"] = "C16: symbol time of SF%d/%d Hz is %d us, expected %d" % (SF_NUM[i], BW_HZ[j], t, (1 << SF_NUM[i]) * 1000000 // BW_HZ[j])
+                d1 = mir2smt.define_fun(mod, fdis[0], "dis_%d_%d" % (i, j), fields={(1, 4): (t, "u32")})
+                d2 = mir2smt.define_fun(mod, fstm[0], "stm_%d_%d" % (i, j), fields={(1, 4): (t, "u32")})
+                smt += d1["text"] + d2["text"]
+            # translator validation
+            vq = smt
+            for (k, i, j, x, v) in samples:
+                vq += "(push)(assert (not (= (%s_%d_%d %d) %d)))(check-sat)(pop)\n" % (k, i, j, x, v)
+            out, dt = solve(vq, SOLVERS[0], 600)
+            ans = parse_answers(out)
+            if len(ans) != len(samples) or any(a[0] != "unsat" for a in ans):
+                bad = [samples[n] for n, a in enumerate(ans) if a[0] != "unsat"][:3]
+                raise lrv.Inconclusive("translator validation FAILED (encoding disagrees with compiled code) on %r" % bad)
+            res["validated"] += len(samples)
+            # the queries: floor division stated by its defining inequalities
+            q = smt + "(declare-const x Int)\n"
+            qlist = []
+            for (i, j), t in sorted(tsym.items()):
+                qlist.append(("stm", i, j, "(and (>= x 0) (<= x 8189))",
+                              "(not (and (stm_%d_%d_ok x) (<= (* (stm_%d_%d x) 1000) (* %d x)) (< (* %d x) (* (+ (stm_%d_%d x) 1) 1000))))" % (i, j, i, j, t, t, i, j)))
+                qlist.append(("dis", i, j, "(and (>= x 0) (<= x 65535) (< (* x 1000) %d))" % (65536 * t),
+                              "(not (and (dis_%d_%d_ok x) (<= (* (dis_%d_%d x) %d) (* x 1000)) (< (* x 1000) (* (+ (dis_%d_%d x) 1) %d))))" % (i, j, i, j, t, i, j, t)))
+            for (k, i, j, dom, neg) in qlist:
+                q += "(push)(assert %s)(assert %s)(check-sat)(get-value (x))(pop)\n" % (dom, neg)
+            verd = {}
+            for solver in SOLVERS:
+                out, dt = solve(q, solver, 900)
+                res["solver_time_s"] += dt
+                a = parse_answers(out)
+                verd[solver] = a
+                res["queries"] += len(a)
+            bad = None
+            for n, (k, i, j, dom, neg) in enumerate(qlist):
+                rs = [verd[sv][n][0] if n < len(verd[sv]) else "error" for sv in SOLVERS]
+                if rs == ["unsat", "unsat"]:
+                    continue
+                bad = (k, i, j, rs, verd[SOLVERS[0]][n][1] if n < len(verd[SOLVERS[0]]) else "")
+                break
+            entry["queries"] = dict(total=len(qlist), per_solver={sv: len(verd[sv]) for sv in SOLVERS})
+            if bad and res["verdict"] == "held":
+                k, i, j, rs, model = bad
+                if "sat" in rs:
+                    m = re.search(r"\(x (\d+)\)", model)
+                    rdir = os.path.join(lrv.VERIF, "replays", "C16")
+                    os.makedirs(rdir, exist_ok=True)
+                    rp = os.path.join(rdir, "symbols_%s_%d_%d.json" % (k, i, j))
+                    json.dump(dict(function=k, sf=SF_NUM[i], bw_hz=BW_HZ[j], t_sym_us=tsym[(i, j)], x=int(m.group(1)) if m else None), open(rp, "w"), indent=1)
+                    res["verdict"] = "violated"
+                    res["replay"] = rp
+                    entry["reason"] = "C16: %s is not floor division for SF%d / %d Hz at x = %s" % ({"stm": "symbols_to_ms", "dis": "delay_in_symbols"}[k], SF_NUM[i], BW_HZ[j], m.group(1) if m else "?")
+                else:
+                    res["verdict"] = "inconclusive"
+                    entry["reason"] = "query %s SF%d/%d: %r" % (k, SF_NUM[i], BW_HZ[j], rs)
+        except (lrv.Inconclusive, mir2smt.Unsupported) as e:
+            res["verdict"] = "inconclusive"
+            entry["reason"] = str(e)
+        entry["verdict"] = res["verdict"]
+        entry.setdefault("reason", "")
+        entry["cbmc_checks"] = res["queries"]
+        entry["covers"] = "n/a"
+        entry["solver_time_s"] = round(res["solver_time_s"], 2)
+        entry["wall_s"] = round(time.time() - t0, 1)
+        return res
+    return job
+
+
 def jobs_for(prop, tier):
     if prop == "C17":
         return [job_c17_pll(tier)]
+    if prop == "C16":
+        return [job_c16_symbols(tier)]
     return []
